@@ -1,13 +1,14 @@
 #!/bin/bash
 # tools/seeds_recheck.sh [name...]: apply every kept seeded change to a scratch worktree of /repo HEAD and run the check(s) named in its
-# meta.json (quick tier): each has to report a violation.  One line per seeded change.
+# meta.json (quick tier): each has to report a violation.  One line per seeded change.  SR_TAG=<suffix> gives the run its own scratch
+# paths so that several runs can work side by side.
 cd "$(dirname "$0")/.."
 NAMES=${@:-$(ls seeded)}
 for n in $NAMES; do
   d=seeded/$n
   [ -f $d/patch.diff ] || continue
   ids=$(python3 -c "import json;print(' '.join(json.load(open('$d/meta.json'))['caught_by']))")
-  WT=/tmp/sr-wt; OUT=/tmp/sr-out
+  WT=/tmp/sr-wt${SR_TAG:-}; OUT=/tmp/sr-out${SR_TAG:-}
   git -C /repo worktree remove --force $WT >/dev/null 2>&1; rm -rf $WT $OUT; git -C /repo worktree prune
   git -C /repo worktree add -q --detach $WT HEAD || { echo "$n WORKTREE-FAILED"; continue; }
   if ! git -C $WT apply $PWD/$d/patch.diff 2>/dev/null; then echo "$n DOES-NOT-APPLY"; continue; fi
@@ -16,4 +17,4 @@ for n in $NAMES; do
     if [ "$res" -gt 0 ]; then echo "$n CAUGHT by $id"; else echo "$n MISSED by $id"; fi
   done
 done
-git -C /repo worktree remove --force /tmp/sr-wt >/dev/null 2>&1; rm -rf /tmp/sr-wt /tmp/sr-out; git -C /repo worktree prune
+git -C /repo worktree remove --force /tmp/sr-wt${SR_TAG:-} >/dev/null 2>&1; rm -rf /tmp/sr-wt${SR_TAG:-} /tmp/sr-out${SR_TAG:-}; git -C /repo worktree prune
